@@ -62,6 +62,9 @@ type Fault struct {
 	// the buffer, then fails),
 	// "peerclose" (the peer end is closed just before the operation),
 	// "localclose" (this end is closed just before the operation),
+	// "timeout" (the operation and every later one fail with a net.Error whose
+	// Timeout() and Temporary() are true: a dead peer, ETIMEDOUT / an expired
+	// deadline - retrying never helps),
 	// "werr" (write only: this and every later write fail, reads go on - the
 	// peer shut down its reading side).
 	Kind string
@@ -158,6 +161,14 @@ func (c *MemConn) Closed() bool { return c.closed }
 // PendingOut returns the number of bytes written and not yet read by the peer.
 func (c *MemConn) PendingOut() int { return len(c.wr.data) }
 
+// TimeoutError is what a "timeout" fault returns: a net.Error of the timeout
+// class (as *net.OpError{Err: syscall.ETIMEDOUT} or os.ErrDeadlineExceeded are).
+type TimeoutError struct{}
+
+func (TimeoutError) Error() string   { return "vnet: i/o timeout (injected)" }
+func (TimeoutError) Timeout() bool   { return true }
+func (TimeoutError) Temporary() bool { return true }
+
 func (c *MemConn) fault(kind string) *Fault {
 	idx := c.ops
 	c.ops++
@@ -198,6 +209,11 @@ func (c *MemConn) Read(p []byte) (int, error) {
 		vrt.Yield()
 		c.rbroken = io.EOF
 		return 0, io.EOF
+	}
+	if f != nil && f.Kind == "timeout" {
+		vrt.Yield()
+		c.rbroken = TimeoutError{}
+		return 0, c.rbroken
 	}
 	if f != nil && f.Kind == "garbage" && len(p) != 28 {
 		// only a frame header can be recognised as corrupted by the
@@ -262,6 +278,12 @@ func (c *MemConn) Write(p []byte) (int, error) {
 	if f != nil && f.Kind == "err" {
 		vrt.Yield()
 		c.wbroken = errors.New("vnet: injected write error")
+		c.rbroken = c.wbroken
+		return 0, c.wbroken
+	}
+	if f != nil && f.Kind == "timeout" {
+		vrt.Yield()
+		c.wbroken = TimeoutError{}
 		c.rbroken = c.wbroken
 		return 0, c.wbroken
 	}
